@@ -265,6 +265,15 @@ Definition send_reset (code : N) (s : send_stream) : res unit unit * send_stream
   | Panic p => (Panic p, s)
   end.
 
+(* Dropping the adapter's SendStream ends every program.  h3-quinn has no `impl Drop` of its own (the translator
+   compares the list of impl blocks and functions of lib.rs with its snapshot: a new impl is an AnchorLost), so
+   only Quinn's own drop runs: a stream that was neither finished nor reset is implicitly finished; nothing
+   is reset, nothing that was handed over is withdrawn.  What is left in Quinn: *)
+Definition send_drop (s : send_stream) : qsend :=
+  let q := s_q s in
+  if qs_finished q || (match qs_reset q with Some _ => true | None => false end) then q
+  else {| qs_id := qs_id q; qs_log := qs_log q; qs_finished := true; qs_reset := qs_reset q |}.
+
 (* fn send_id *)
 Definition send_id (s : send_stream) : res unit N :=
   match sid_try_from (qs_id (s_q s)) with Some id => Ok id | None => Panic 40 end.
